@@ -1188,6 +1188,11 @@ int tls_encrypted_record_print(FILE *fp, const uint8_t *record,  size_t recordle
 		return -1;
 	}
 
+	if (recordlen < tls_record_length(record)) {
+		error_print();
+		return -1;
+	}
+
 	protocol = tls_record_protocol(record);
 	format_print(fp, format, indent, "EncryptedRecord\n"); indent += 4;
 	format_print(fp, format, indent, "ContentType: %s (%d)\n", tls_record_type_name(record[0]), record[0]);
